@@ -224,13 +224,15 @@ pub fn load_known_findings(property: &str) -> Vec<KnownFinding> {
 pub fn finish(ctx: Ctx) -> i32 {
     let wall = ctx.start.elapsed().as_secs_f64();
     let mut exit = 0;
-    std::fs::create_dir_all(format!("{}/replays", VERIF_DIR)).ok();
-    std::fs::create_dir_all(format!("{}/evidence", VERIF_DIR)).ok();
+    // development runs against a scratch copy of the repository write elsewhere (VERIF_OUT_DIR)
+    let out_dir = std::env::var("VERIF_OUT_DIR").unwrap_or_else(|_| VERIF_DIR.to_string());
+    std::fs::create_dir_all(format!("{}/replays", out_dir)).ok();
+    std::fs::create_dir_all(format!("{}/evidence", out_dir)).ok();
     let mut vio_out = vec![];
     for (i, v) in ctx.violations.iter().enumerate() {
         let body = json!({"property": ctx.property, "family": v.family, "case": v.case, "message": v.message, "seed": ctx.seed, "tier": ctx.tier.name()});
         let name = format!("{}_{}_{:016x}.json", ctx.property, v.family, fp(&serde_json::to_string(&v.case).unwrap_or_default()));
-        let path = format!("{}/replays/{}", VERIF_DIR, name);
+        let path = format!("{}/replays/{}", out_dir, name);
         std::fs::write(&path, serde_json::to_string_pretty(&body).unwrap()).ok();
         if i < 20 {
             println!("VIOLATION property={} replay={}", ctx.property, path);
@@ -240,7 +242,7 @@ pub fn finish(ctx: Ctx) -> i32 {
         exit = 1;
     }
     if ctx.violations.len() > 20 {
-        println!("  ... and {} more violations (all written to {}/replays)", ctx.violations.len() - 20, VERIF_DIR);
+        println!("  ... and {} more violations (all written to {}/replays)", ctx.violations.len() - 20, out_dir);
     }
     for (id, (what, n)) in &ctx.known_hits {
         println!("KNOWN-FINDING: property={} {} [{}; {} generated cases matched the listed signature and were excluded]", ctx.property, what, id, n);
@@ -282,7 +284,7 @@ pub fn finish(ctx: Ctx) -> i32 {
         "known_findings_matched": ctx.known_hits.iter().map(|(k, v)| json!({"id": k, "cases": v.1})).collect::<Vec<_>>(),
         "repo": env!("WALLEYE_REPO_AT_BUILD"),
     });
-    let evpath = format!("{}/evidence/{}.json", VERIF_DIR, ctx.property);
+    let evpath = format!("{}/evidence/{}.json", out_dir, ctx.property);
     if let Err(e) = std::fs::write(&evpath, serde_json::to_string_pretty(&ev).unwrap()) {
         eprintln!("cannot write evidence {}: {}", evpath, e);
         return 2;
